@@ -27,151 +27,214 @@ def py_unescape(s):
     return re.sub(r"\\u\{([0-9a-fA-F]+)\}", lambda m: chr(int(m.group(1), 16)), s)
 
 
-def samples_of(fam, k=4):
-    """concrete members of the family (for the translation validation)"""
+def whole_lang(fam):
+    return PR.cat([sg.lang for sg in fam.segments] + [fam.rest])
+
+
+def decompose(fam, w):
+    """one reading of the concrete word w as the family's segments + rest -> list of texts | None"""
+    vs = [z3.String(f"seg{i}") for i in range(len(fam.segments))]
+    r = z3.String("rest")
+    so = z3.Solver()
+    so.set("timeout", 5000)
+    so.add(z3.StringVal(w) == z3.Concat(*(vs + [r])) if vs else z3.StringVal(w) == r)
+    for v, sg in zip(vs, fam.segments):
+        so.add(z3.InRe(v, sg.lang))
+    so.add(z3.InRe(r, fam.rest))
+    if so.check() != z3.sat:
+        return None
+    m = so.model()
+    return [py_unescape(mstr(m, v) or "") for v in vs]
+
+
+def expected_of(fam, w):
+    """[end, groups] the specification expects for the member w (None: no match expected)"""
+    if not fam.matches:
+        return None
+    parts = decompose(fam, w)
+    if parts is None:
+        return "not-a-member"
+    return [sum(len(x) for x in parts), {g: "".join(parts[a:b]) for g, (a, b) in fam.groups.items()}]
+
+
+def agrees(real, exp):
+    if exp is None:
+        return real is None
+    return real is not None and real[0] == exp[0] and all(real[1].get(g) == v for g, v in exp[1].items())
+
+
+def samples_of(fam, k=3, lengths=(1, 3, 6, 9)):
     out = []
-    for n in fam.sample_len:
-        s = z3.Solver()
-        s.set("timeout", 5000)
-        s.add(*fam.constraints)
-        s.add(z3.Length(fam.w) >= n + 1)
+    u = z3.String("u")
+    L = whole_lang(fam)
+    for n in lengths:
+        so = z3.Solver()
+        so.set("timeout", 5000)
+        so.add(z3.InRe(u, L), z3.Length(u) >= n)
         for prev in out:
-            s.add(fam.w != z3.StringVal(prev[0]))
-        if s.check() == z3.sat:
-            m = s.model()
-            w = py_unescape(mstr(m, fam.w) or "")
-            groups = {g: py_unescape(mstr(m, t) or "") for g, t in fam.groups.items()}
-            end = None
-            if fam.pieces is not None:
-                end = sum(len(py_unescape(mstr(m, p) or "")) for p in fam.pieces)
-            out.append((w, groups, end))
+            so.add(u != z3.StringVal(prev))
+        if so.check() == z3.sat:
+            out.append(py_unescape(mstr(so.model(), u) or ""))
         if len(out) >= k:
             break
     return out
 
 
-def run_family(chk, fam, pat, timeout_ms):
-    """-> (number of queries, status)"""
+def member_with_segment(fam, g, text):
+    """a member of the family whose segment g is `text` (the others as short as possible)"""
+    vs = [z3.String(f"seg{i}") for i in range(len(fam.segments))]
+    so = z3.Solver()
+    so.set("timeout", 5000)
+    for i, (v, sg) in enumerate(zip(vs, fam.segments)):
+        so.add(z3.InRe(v, sg.lang))
+        if i == g:
+            so.add(v == z3.StringVal(text))
+        else:
+            so.add(z3.Length(v) <= 4)
+    if so.check() != z3.sat:
+        return None
+    m = so.model()
+    return "".join(py_unescape(mstr(m, v) or "") for v in vs)
+
+
+def family_queries(chk, fam, pat):
+    """-> (queries, intended shape description) | None when undecided"""
     name = f"regex.{fam.pattern.split('_LITERAL')[0].lower()}.{fam.name}"
-    t0 = time.time()
     try:
         sh = PR.shapes(pat["pattern"], pat["flags"])
-    except UnsupportedRegex as e:
-        chk.items.append(Item(f"{chk.pid}.{name}", "lemma", "undecided", "z3", 0.0, {"unsupported-regex": str(e)}))
-        chk.undecided.append(f"{chk.pid}.{name}: pattern outside the supported subset ({e})")
-        return 0
-    family = fam.constraints
-    queries = []
-    k0 = None
-    if fam.pieces is None:
-        q, _ = PR.lemma_queries(pat["pattern"], pat["flags"], fam.w, family, None, None, name)
-        queries = q
-    else:
-        # the shape of the intended instance: the first shape (in priority order) of which the
-        # given pieces are an instance, for every member of the family
+        if not fam.matches:
+            return PR.no_match_queries(sh, whole_lang(fam), name), None
+        npieces = sum(sg.npieces for sg in fam.segments)
+        u = z3.String("u")
+        witnesses = []
         for k, s in enumerate(sh):
-            if len(s.pieces) != len(fam.pieces):
+            if len(s.pieces) != npieces:
                 continue
-            eq, _op = PR.intended_queries(sh, k, fam.w, family, fam.pieces, fam.groups, name)
-            eq = [x for x in eq if ".E." in x[0]]
+            try:
+                qs, opaque, _ = PR.queries_for_family(sh, k, fam.segments, fam.rest, fam.groups, name)
+            except UnsupportedRegex:
+                continue            # not a shape the expected match can be an instance of
             ok = True
-            for qn, cons, meta in eq:
+            for qn, lang, meta in qs:
+                if ".E." not in qn:
+                    continue
                 so = z3.Solver()
-                so.set("timeout", timeout_ms)
-                so.add(*cons)
+                so.set("timeout", 10000)
+                so.add(z3.InRe(u, lang))
                 if so.check() != z3.unsat:
                     ok = False
+                    # a text of one segment that the pieces of this shape cannot take: keep a
+                    # member of the family built around it as a candidate counterexample
+                    if "_fits_its_pieces" in qn and len(witnesses) < 12:
+                        try:
+                            g = int(qn.split(".E.segment")[1].split("_")[0])
+                            t = py_unescape(mstr(so.model(), u) or "")
+                            wv = member_with_segment(fam, g, t)
+                            if wv is not None and wv not in witnesses:
+                                witnesses.append(wv)
+                        except Exception:
+                            pass
                     break
             if ok:
-                k0 = k
-                break
-        if k0 is None:
-            chk.smt(name + ".E.intended_match_exists", "sat", time.time() - t0,
-                    {"claim": "the expected pieces are an instance of some shape of the real pattern",
-                     "shapes": [s.describe() for s in sh][:30]},
-                    what=f"no way of matching {fam.pattern} yields the expected groups for the family '{fam.name}'")
-            return 1
-        queries, opaque = PR.intended_queries(sh, k0, fam.w, family, fam.pieces, fam.groups, name)
-        if opaque:
-            chk.items.append(Item(f"{chk.pid}.{name}", "lemma", "undecided", "z3", 0.0,
-                                  {"reason": "the intended match goes through a repeated complex sub-pattern"}))
-            chk.undecided.append(f"{chk.pid}.{name}: intended match uses an opaque piece")
-            return 0
-    obs = [Obligation(qn, cons, z3.BoolVal(False), kind="lemma", meta=dict(meta)) for qn, cons, meta in queries]
-    return obs, k0, sh
+                if opaque:
+                    raise UnsupportedRegex("the expected match goes through a repeated complex sub-pattern")
+                return qs, s.describe()
+        return [(name + ".E.expected_match_is_a_match_of_the_pattern", z3.Re(""),
+                 {"shapes": [s.describe() for s in sh][:40], "witness_words": witnesses})], None
+    except UnsupportedRegex as e:
+        chk.items.append(Item(f"{chk.pid}.{name}", "lemma", "undecided", "z3", 0.0, {"unsupported-regex": str(e)}))
+        chk.undecided.append(f"{chk.pid}.{name}: outside the supported subset ({e})")
+        return None
 
 
 def run_regex_lemmas(chk, thorough):
     pats = run_native("spell_harness", {"op": "patterns"})["patterns"]
-    fams = LIT.integer_families() + LIT.float_reject_families() + LIT.float_families()
-    timeout_ms = 30000 if thorough else 10000
+    fams = LIT.all_families()
+    timeout_ms = 60000 if thorough else 20000
+    u = z3.String("u")
     all_obs, per_fam = [], []
     for fam in fams:
         if fam.pattern not in pats:
             chk.frame(f"regex.{fam.pattern}.present", False, {}, what=f"{fam.pattern} is no longer defined by the lexer module")
             continue
-        r = run_family(chk, fam, pats[fam.pattern], timeout_ms)
-        if isinstance(r, tuple):
-            obs, k0, sh = r
-            per_fam.append((fam, obs, k0, sh))
-            all_obs += obs
-    t0 = time.time()
+        r = family_queries(chk, fam, pats[fam.pattern])
+        if r is None:
+            continue
+        qs, desc = r
+        obs = [Obligation(qn, [z3.InRe(u, lang)], z3.BoolVal(False), kind="lemma", meta=dict(meta)) for qn, lang, meta in qs]
+        per_fam.append((fam, obs, desc))
+        all_obs += obs
     discharge_parallel(all_obs, timeout_ms, procs=14)
-    for fam, obs, k0, sh in per_fam:
+    proved = set()
+    for fam, obs, desc in per_fam:
         name = f"regex.{fam.pattern.split('_LITERAL')[0].lower()}.{fam.name}"
         failed = [o for o in obs if o.result == "failed"]
         unknown = [o for o in obs if o.result not in ("failed", "discharged")]
         tsum = sum(o.time for o in obs)
         detail = {"queries": len(obs), "pattern": fam.pattern,
-                  "claim": ("no prefix of a member of the family is matched" if fam.pieces is None else
+                  "claim": ("no prefix of a member of the family is matched" if not fam.matches else
                             "Python's backtracking search returns exactly the expected match (groups and end) for "
                             "every member of the family"),
-                  "intended_shape": sh[k0].describe() if k0 is not None else None}
+                  "expected_shape": desc}
         if failed:
-            o = failed[0]
-            w = py_unescape(mstr(o.model, fam.w) or "") if o.model is not None else None
-            detail["refuted_query"] = o.name
-            detail["counter_model_input"] = w
-            rp = None
-            if w is not None:
-                real = run_native("spell_harness", {"op": "rematch", "pattern": fam.pattern, "words": [w]})["results"][0]
-                want_groups = {g: py_unescape(mstr(o.model, t) or "") for g, t in fam.groups.items()}
-                want_end = None if fam.pieces is None else sum(len(py_unescape(mstr(o.model, p) or "")) for p in fam.pieces)
-                agrees = (real is None) if fam.pieces is None else (real is not None and real[0] == want_end and
-                                                                    all(real[1].get(g) == val for g, val in want_groups.items()))
-                detail["real_pattern_answers"] = real
-                detail["expected"] = None if fam.pieces is None else [want_end, want_groups]
-                if agrees:
-                    # the real engine gives the expected match on the counter-model: the encoding
-                    # (not the code) is at fault -> undecided, never a verdict
-                    chk.items.append(Item(f"{chk.pid}.{name}", "lemma", "undecided", "z3", tsum, detail))
-                    chk.undecided.append(f"{chk.pid}.{name}: counter-model {w!r} not confirmed by the real pattern")
+            confirmed = None
+            for o in failed[:2]:
+                for w in (o.meta.get("witness_words") or []) + samples_of(fam, 4, lengths=(1, 5, 12, 24, 48)):
+                    exp = expected_of(fam, w)
+                    if exp == "not-a-member":
+                        continue
+                    real = run_native("spell_harness", {"op": "rematch", "pattern": fam.pattern, "words": [w]})["results"][0]
+                    if not agrees(real, exp):
+                        confirmed = (o, w, real, exp)
+                        break
+                if confirmed:
+                    break
+            for o in ([] if confirmed else failed[:6]):
+                w = py_unescape(mstr(o.model, u) or "").replace(PR.M1, "").replace(PR.M2, "") if o.model is not None else None
+                if w is None:
                     continue
-                rp = {"op": "literal_one", "text": w, "pattern": fam.pattern, "expected": detail["expected"]}
-            chk.smt(name, "sat", tsum, detail, replay=rp,
-                    what=(f"{fam.pattern} on {w!r}: the real pattern answers {detail.get('real_pattern_answers')}, "
-                          f"a C constant of the family '{fam.name}' should give {detail.get('expected')}"))
+                exp = expected_of(fam, w)
+                if exp == "not-a-member":
+                    continue
+                real = run_native("spell_harness", {"op": "rematch", "pattern": fam.pattern, "words": [w]})["results"][0]
+                if not agrees(real, exp):
+                    confirmed = (o, w, real, exp)
+                    break
+                detail.setdefault("unconfirmed_counter_models", []).append({"query": o.name, "input": w})
+            if confirmed is None:
+                # the real engine gives the expected match on every counter-model: the encoding
+                # (not the code) is at fault -> undecided, never a verdict
+                detail["refuted_queries"] = [o.name for o in failed][:5]
+                chk.items.append(Item(f"{chk.pid}.{name}", "lemma", "undecided", "z3", tsum, detail))
+                chk.undecided.append(f"{chk.pid}.{name}: counter-models not confirmed by the real pattern")
+                continue
+            o, w, real, exp = confirmed
+            detail.update({"refuted_query": o.name, "counter_model_input": w, "real_pattern_answers": real, "expected": exp})
+            chk.smt(name, "sat", tsum, detail, replay={"op": "rematch_one", "text": w, "pattern": fam.pattern, "expected": exp, "confirmed": True},
+                    what=(f"{fam.pattern} on {w!r}: the real pattern answers {real}, a C constant of the family "
+                          f"'{fam.name}' should give {exp}"))
         elif unknown:
             detail["unknown_queries"] = [o.name for o in unknown][:5]
             chk.items.append(Item(f"{chk.pid}.{name}", "lemma", "undecided", "z3", tsum, detail))
-            chk.undecided.append(f"{chk.pid}.{name}: {len(unknown)} string queries undecided by z3 within {timeout_ms} ms")
+            chk.undecided.append(f"{chk.pid}.{name}: {len(unknown)} regular-language queries undecided within {timeout_ms} ms")
         else:
             chk.smt(name, "unsat", tsum, detail)
-    # translation validation of the search-order encoding: samples of every family through the real `re`
+            proved.add(fam.name + "@" + fam.pattern)
+    # translation validation of the search-order encoding: members of every family through the real `re`
     t0 = time.time()
     nval, bad = 0, []
     for fam in fams:
-        if fam.pattern not in pats:
+        # a proved lemma that the real engine contradicts on a member means the encoding of the
+        # search order (or the family) is wrong: only proved families are compared
+        if fam.pattern not in pats or fam.name + "@" + fam.pattern not in proved:
             continue
-        smp = samples_of(fam, 3 if thorough else 2)
-        if not smp:
+        words = samples_of(fam, 3 if thorough else 2)
+        if not words:
             continue
-        real = run_native("spell_harness", {"op": "rematch", "pattern": fam.pattern, "words": [s[0] for s in smp]})["results"]
-        for (w, groups, end), r in zip(smp, real):
+        real = run_native("spell_harness", {"op": "rematch", "pattern": fam.pattern, "words": words})["results"]
+        for w, r in zip(words, real):
+            exp = expected_of(fam, w)
             nval += 1
-            if fam.pieces is None:
-                if r is not None:
-                    bad.append({"family": fam.name, "input": w, "real": r, "expected": None})
-            elif r is None or r[0] != end or any(r[1].get(g) != val for g, val in groups.items()):
-                bad.append({"family": fam.name, "input": w, "real": r, "expected": [end, groups]})
+            if exp != "not-a-member" and not agrees(r, exp):
+                bad.append({"family": fam.name, "input": w, "real": r, "expected": exp})
     return nval, bad, time.time() - t0
